@@ -361,6 +361,17 @@ func checkEntry(e entry) {
 	}
 	sort.Strings(vals)
 	instVals := append(append([]string{}, vals...), "", "v%2Fw")
+	// an argument holding, escaped, the reserved byte that ends the parameter in some template
+	var reservedFollow []byte
+	for c := range follow {
+		if c != '/' && !isUnreserved(c) && c != '%' && c != '{' {
+			reservedFollow = append(reservedFollow, c)
+		}
+	}
+	sort.Slice(reservedFollow, func(i, j int) bool { return reservedFollow[i] < reservedFollow[j] })
+	for _, c := range reservedFollow {
+		instVals = append(instVals, fmt.Sprintf("v%%%02Xw", c))
+	}
 	paths := map[string]bool{}
 	instances := map[string]bool{}
 	for _, ps := range parsed {
@@ -380,6 +391,15 @@ func checkEntry(e entry) {
 			}
 		}
 		rec(0)
+	}
+	// near misses: an instance with the reserved delimiter escaped is another path (RFC 3986 6.2.2.2:
+	// a reserved character and its escape are not equivalent)
+	for p := range instances {
+		for _, c := range reservedFollow {
+			if strings.IndexByte(p, c) >= 0 {
+				paths[strings.ReplaceAll(p, string(c), fmt.Sprintf("%%%02X", c))] = true
+			}
+		}
 	}
 	segTexts := append(append([]string{}, vals...), "")
 	cur := []string{""}
@@ -403,6 +423,13 @@ func checkEntry(e entry) {
 		attrs := map[string]string{"class": class}
 		if lenientOK {
 			attrs["consistent_with_lenient_matcher"] = "true"
+		}
+		// the request escapes exactly what net/url would (RawPath stays empty) and one of the escapes
+		// stands for a reserved byte: the router is handed the decoded path only
+		if u, err := url.Parse("http://x" + path); err == nil && u.RawPath == "" && strings.Contains(path, "%") {
+			if norm, ok := refNormalize(path); ok && norm != u.Path {
+				attrs["go_canonical_spelling_with_escaped_reserved_byte"] = "true"
+			}
 		}
 		drv.Violation(attrs, len(path)+10*len(e.templates)+len(strings.Join(e.templates, "")),
 			kase{e.templates, prefix, method, path, fmt.Sprintf("status=%d op=%q args=%v allow=%q panic=%q", o.status, o.op, o.params, o.allow, o.pan), expected})
